@@ -26,18 +26,40 @@ func MustParseDate(s string) Date {
 func ParseDate(s string) (Date, error) {
 	if s == "" {
 		return Date{}, fmt.Errorf("blank date string")
-	} else if date, err := time.ParseInLocation("2006-01-02", s, time.Local); err != nil {
+	} else if date, err := time.Parse("2006-01-02", s); err != nil {
 		return Date{}, err
 	} else {
-		return Date(date), nil
+		return Date(startOfDay(date.Date())), nil
 	}
 }
 
 // Utility function to explicitly construct a Date from year, month and day.
 func ToDate(year int, month time.Month, day int) Date {
+	return Date(startOfDay(year, month, day))
+}
+
+// Returns the start of a calendar day in the local time zone.
+//
+// In time zones where a DST (or other) transition skips local midnight, time.Date resolves the
+// non-existent 00:00 to an instant that may be on the previous calendar day - in which case
+// the first whole hour that does exist on the requested day is used instead.
+func startOfDay(year int, month time.Month, day int) time.Time {
+	year, month, day = time.Date(year, month, day, 0, 0, 0, 0, time.UTC).Date()
 	date := time.Date(year, month, day, 0, 0, 0, 0, time.Local)
 
-	return Date(date)
+	for h := 1; h < 24; h++ {
+		if y, m, d := date.Date(); y == year && m == month && d == day {
+			return date
+		}
+
+		date = time.Date(year, month, day, h, 0, 0, 0, time.Local)
+	}
+
+	if y, m, d := date.Date(); y == year && m == month && d == day {
+		return date
+	}
+
+	return time.Date(year, month, day, 0, 0, 0, 0, time.Local)
 }
 
 // Returns true if the date is the zero value.
@@ -145,10 +167,10 @@ func (d *Date) UnmarshalUT0311L0x(bytes []byte) (any, error) {
 		}
 	}
 
-	if date, err := time.ParseInLocation("20060102", decoded, time.Local); err != nil {
+	if date, err := time.Parse("20060102", decoded); err != nil {
 		return &Date{}, nil
 	} else {
-		v := Date(date)
+		v := Date(startOfDay(date.Date()))
 
 		return &v, nil
 	}
@@ -175,12 +197,12 @@ func (d *Date) UnmarshalJSON(bytes []byte) error {
 		return nil
 	}
 
-	date, err := time.ParseInLocation("2006-01-02", s, time.Local)
+	date, err := time.Parse("2006-01-02", s)
 	if err != nil {
 		return err
 	}
 
-	*d = Date(date)
+	*d = Date(startOfDay(date.Date()))
 
 	return nil
 }
